@@ -183,6 +183,10 @@ def aggregate(prop, jobname, job, cases_path, results_path, acc):
                 acc["excluded"][skipped[0]] += 1
             if not mine_ok and not mine_bad:
                 continue
+            for o in mine_ok:
+                if "*" in o:                      # one verdict standing for n evaluated inputs
+                    acc["evaluations"] += int(o.rsplit("*", 1)[1]) - 1
+            mine_ok = [o.rsplit("*", 1)[0] for o in mine_ok]
             acc["evaluations"] += len(mine_ok) + len(mine_bad)
             for o in mine_ok:
                 acc["kinds"][o] += 1
